@@ -159,6 +159,30 @@ func (g *Gen) forType(ty string) *J {
 			jObj(A(jStr("1"))), jObj(A(raw("1")), kv("B", raw("2"))), jObj(A(raw("1.0"))), jArr(), raw("3"),
 			jObj(A(raw("9223372036854775808"))), jObj(A(jStr("x")), A(raw("1"))), jObj(kv("B", raw("1"))),
 		})
+	case "vslice":
+		switch r.Intn(8) {
+		case 0:
+			return lib.Pick(r, []*J{jNull(), jArr(), jObj(), raw("1"), jArr(jNull()), jArr(raw("1")), jArr(jArr())})
+		}
+		out := &J{K: '[', A: []*J{}}
+		for k := r.Range(1, 3); k > 0; k-- {
+			out.A = append(out.A, g.forType("vstruct"))
+		}
+		return out
+	case "vmap":
+		switch r.Intn(8) {
+		case 0:
+			return lib.Pick(r, []*J{jNull(), jObj(), jArr(), raw("1"), jStr("x")})
+		}
+		out := &J{K: '{', O: []KV{}}
+		for k := r.Range(1, 3); k > 0; k-- {
+			val := g.forType("vstruct")
+			if r.Chance(1, 5) {
+				val = jNull()
+			}
+			out.O = append(out.O, KV{lib.Pick(r, []string{"a", "b", "expectedkey", "", "A"}), val})
+		}
+		return out
 	case "bounds":
 		ma := lib.Pick(r, []*J{jStr("0x0"), jStr("0x1"), jStr("0xffffffffffffffff"), jStr("0xffffffffffffffff"),
 			jStr("0x10000000000000000"), jStr("0x8000000000000000"), jStr("0X1"), jStr("0x"), jStr("1"), jStr("0xg"),
@@ -624,11 +648,11 @@ func describe(in []byte) string {
 // with and without an unknown name; as request and as notification.
 func bindingExhaustive(spec WorldSpec) [][]byte {
 	okVal := map[string]string{"any": `{"k":[1,"x"]}`, "raw": `[1.50,{"b":1,"a":2}]`, "int": `7`, "str": `"s"`, "bool": `true`, "ptrInt": `-3`,
-		"ints": `[1,2]`, "vstruct": `{"A":2}`, "bounds": `{"max_amount":"0x1","max_price_per_unit":"0x2","version":"0x3"}`}
+		"ints": `[1,2]`, "vslice": `[{"A":1},{"A":9}]`, "vmap": `{"k":{"A":3},"n":null}`, "vstruct": `{"A":2}`, "bounds": `{"max_amount":"0x1","max_price_per_unit":"0x2","version":"0x3"}`}
 	badVal := map[string]string{"any": `1e999`, "raw": `[[`, "int": `"7"`, "str": `5`, "bool": `"true"`, "ptrInt": `1.5`,
-		"ints": `[1,"2"]`, "vstruct": `{"A":0}`, "bounds": `{"max_amount":"0x10000000000000000","max_price_per_unit":"0x2","version":"0x3"}`}
+		"ints": `[1,"2"]`, "vslice": `[{"A":1},{"A":0}]`, "vmap": `{"k":{"A":3},"z":{"A":-1}}`, "vstruct": `{"A":0}`, "bounds": `{"max_amount":"0x10000000000000000","max_price_per_unit":"0x2","version":"0x3"}`}
 	var out [][]byte
-	for _, name := range []string{"opt3", "sub", "allopt", "list", "bnd", "vs", "echo", "nilres"} {
+	for _, name := range []string{"opt3", "sub", "allopt", "list", "bnd", "vs", "vsl", "echo", "nilres"} {
 		var ms *MethodSpec
 		for i := range spec.Methods {
 			if spec.Methods[i].Name == name {
